@@ -220,6 +220,11 @@ package tokenizer
 //@   ensures @C20 peak() <= len(recv.input) && peak() >= recv.pos.Index
 //@   ensures @C20 pc_ok(recv) && recv.posCacheIndex >= old(recv.posCacheIndex)
 //@   ensures @C20 recv.codeScanIndex >= old(recv.codeScanIndex) && recv.codeScanIndex <= recv.pos.Index
+// A block comment ends at the first "*/" after its opening "/*": while the loop runs, no "*/" lies in the part of the
+// comment already passed, and a '*' just passed is not followed by '/'.
+//@   loop 2 invariant @C04 commentStartIdx + 2 <= recv.pos.Index && recv.pos.Index <= len(recv.input)
+//@   loop 2 invariant @C04 forall(k, commentStartIdx + 2, recv.pos.Index - 1, !(recv.input[k] == 42 && recv.input[k+1] == 47))
+//@   loop 2 invariant @C04 implies(recv.pos.Index - 1 >= commentStartIdx + 2 && recv.pos.Index < len(recv.input), !(recv.input[recv.pos.Index-1] == 42 && recv.input[recv.pos.Index] == 47))
 //@   loop 5 invariant tz_ok(recv) && recv.pos.Index <= contentEnd && contentEnd <= len(recv.input)
 //@   loop 5 invariant implies(closed, contentEnd + len(closingTag) <= len(recv.input))
 //@   loop 5 invariant @C20 cost() <= 20*(peak() - old(recv.pos.Index)) + 2*(contentEnd - contentStart) + 100 && peak() == recv.pos.Index && contentStart <= contentEnd
